@@ -102,6 +102,76 @@ pub extern "C-unwind" fn h_c01_insert() {
     unsafe { vf::check(tok::DROPPED == tok::CREATED, 302); }
 }
 
+
+impl Model {
+    fn retain(&mut self, mask: u8) {
+        let mut i = 0;
+        while i < self.n {
+            if (mask >> (self.keys[i] % 8)) & 1 == 1 { i += 1; } else {
+                self.n -= 1;
+                self.keys[i] = self.keys[self.n];
+                self.vals[i] = self.vals[self.n];
+            }
+        }
+    }
+}
+
+fn step(m: &mut Map<Tok, Tok, N>, md: &mut Model) {
+    let op = vf::any_u8();
+    let k = vf::any_u8();
+    let v = vf::any_u8();
+    if op == 0 {
+        vf::assume(md.n < N || md.get(k).is_some());
+        let r = m.insert(Tok::new(k), Tok::new(v));
+        let e = md.insert(k, v);
+        vf::check(r.as_ref().map(|t| t.key) == e, 11);
+    } else if op == 1 {
+        let kt = Tok::new(k);
+        let r = m.remove(&kt);
+        let e = md.remove(k);
+        vf::check(r.as_ref().map(|t| t.key) == e, 12);
+    } else if op == 2 {
+        m.retain(|kk, _| (k >> (kk.key % 8)) & 1 == 1);
+        md.retain(k);
+    } else if op == 3 {
+        m.clear();
+        md.n = 0;
+    } else {
+        let full_absent = md.n == N && md.get(k).is_none();
+        let r = m.checked_insert(Tok::new(k), Tok::new(v));
+        if full_absent { vf::check(r.is_none(), 13); } else {
+            let e = md.insert(k, v);
+            vf::check(r.map(|o| o.map(|t| t.key)) == Some(e), 14);
+        }
+    }
+    observe(m, md);
+}
+
+#[no_mangle]
+pub extern "C-unwind" fn h_hist3() {
+    tok::reset();
+    let mut m: Map<Tok, Tok, N> = Map::new();
+    let mut md = Model { n: 0, keys: [0; N], vals: [0; N] };
+    step(&mut m, &mut md);
+    step(&mut m, &mut md);
+    step(&mut m, &mut md);
+    drop(m);
+    unsafe { vf::check(tok::DROPPED == tok::CREATED, 302); }
+}
+
+#[no_mangle]
+pub extern "C-unwind" fn h_hist4() {
+    tok::reset();
+    let mut m: Map<Tok, Tok, N> = Map::new();
+    let mut md = Model { n: 0, keys: [0; N], vals: [0; N] };
+    step(&mut m, &mut md);
+    step(&mut m, &mut md);
+    step(&mut m, &mut md);
+    step(&mut m, &mut md);
+    drop(m);
+    unsafe { vf::check(tok::DROPPED == tok::CREATED, 302); }
+}
+
 #[cfg(kani)]
 mod kproofs {
     #[kani::proof]
